@@ -721,6 +721,9 @@ struct SinkSpec {
     init: Vec<MQ>,
     /// serializers: the writer fills up through short writes instead of returning an error
     short: bool,
+    /// add_to(Vec), quad pipelines: the target is a graph seen as a dataset (`as_dataset_mut()`),
+    /// which refuses quads of named graphs with an error (a sink fault that comes from the data)
+    gad: bool,
 }
 
 #[derive(Debug, Default)]
@@ -1074,6 +1077,12 @@ fn consume_q<S: QuadSource>(mut s: S, sp: &SinkSpec) -> Outcome {
                 ..Outcome::default()
             }
         }
+        11 if sp.gad => {
+            use sophia_api::graph::Graph;
+            let mut v: Vec<[ST; 3]> = sp.init.iter().filter(|q| q.g.is_none()).map(t_of).collect();
+            let r = s.add_to_dataset(&mut v.as_dataset_mut());
+            Outcome { res: Some(res_of(r.map(Some))), store: Some(v.iter().map(mq_t).collect()), ..Outcome::default() }
+        }
         11 => {
             let mut v: Vec<Spog<ST>> = sp.init.iter().map(q_of).collect();
             let r = s.add_to_dataset(&mut v);
@@ -1302,6 +1311,15 @@ impl Check for C15 {
                 f.push((Fault::None, 3));
                 f.push((Fault::None, 6));
             }
+            if sink == 11 {
+                // target = a graph seen as a dataset (quad pipelines only)
+                f.push((Fault::None, 3));
+                if kind_can_fail(kind) {
+                    for k in 0..n as u8 {
+                        f.push((Fault::Source(k), 4));
+                    }
+                }
+            }
             if sink_can_fail(sink) {
                 for k in 0..n as u8 {
                     if sink == 12 {
@@ -1447,7 +1465,7 @@ impl Check for C15 {
             None
         };
         let plan = Plan { kind, chain: &chain, ii, direct, src: src.clone(), src_fault, fault_line, raw };
-        let mut sp = SinkSpec { sink, fail_at: None, cap, init: init.clone(), short: matches!(sink, 12 | 13) && (case.aux / 3) % 2 == 1 };
+        let mut sp = SinkSpec { sink, fail_at: None, cap, init: init.clone(), short: matches!(sink, 12 | 13) && (case.aux / 3) % 2 == 1, gad: sink == 11 && fq && (case.aux / 3) % 2 == 1 };
 
         // serializers: fault-free output first, then the byte limit inside statement k
         let mut free_output: Option<Vec<u8>> = None;
@@ -1525,6 +1543,8 @@ fn judge(ctx: &mut Ctx, case: &Case, plan: &Plan, sp: &SinkSpec, image: &[(usize
     // index of the delivered item on which the sink fails (None: the sink does not fail)
     let sink_fail_idx: Option<usize> = match sp.sink {
         0 | 1 | 9 | 10 => sp.fail_at.map(|k| k as usize).filter(|k| *k < img.len()),
+        // a graph seen as a dataset refuses the first quad of a named graph
+        11 if sp.gad => img.iter().position(|q| q.g.is_some()),
         6 | 7 => {
             let mut terms: BTreeSet<MT> = BTreeSet::new();
             for q in &sp.init {
@@ -1633,7 +1653,9 @@ fn judge(ctx: &mut Ctx, case: &Case, plan: &Plan, sp: &SinkSpec, image: &[(usize
                 Some(j) => {
                     fired = true;
                     match &res {
+                        Res::Sink(_) if sp.gad => {}
                         Res::Sink(e) if e.text.contains("TermIndex") => {}
+                        _ if sp.gad => ctx.fail(sig("sink-error-not-reported", plan, sp), ctxt(format!("delivered item #{j} belongs to a named graph, which a graph seen as a dataset refuses; expected SinkError(OnlyDefaultGraph)"))),
                         _ => ctx.fail(sig("sink-error-not-reported", plan, sp), ctxt(format!("the term index (capacity {}) is full at delivered item #{j}; expected SinkError(TermIndexFullError)", sp.cap))),
                     }
                     if let Some(p) = pulls {
@@ -1647,7 +1669,7 @@ fn judge(ctx: &mut Ctx, case: &Case, plan: &Plan, sp: &SinkSpec, image: &[(usize
             }
             let (exp_store, changes) = if sp.sink == 11 {
                 // Vec: a list, every insertion is "effective"
-                let mut v = sp.init.clone();
+                let mut v: Vec<MQ> = if sp.gad { sp.init.iter().filter(|q| q.g.is_none()).cloned().collect() } else { sp.init.clone() };
                 v.extend(applied.iter().cloned());
                 (v, applied.len())
             } else {
